@@ -181,6 +181,50 @@ theorem timeout_requests_full (s : State) (pd : Pend) (hpd : pd ∈ s.pend) (r :
     simp only [List.mem_map, List.mem_filter]
     exact ⟨r.pd, ⟨hk, by simp [hm.2.1]; exact hh⟩, by simp [hm.1, hm.2.1]⟩
 
+/-- **rebuild first, then the timeout**: at a pass of the loop at which the pool completes a queued block, the
+block is rebuilt and posted *whatever its pending time* — also when the timeout has long passed because the
+loop was late. -/
+theorem complete_pool_rebuilds_at_any_time (s : State) (pd : Pend) (hpd : pd ∈ s.pend) (r : BuildOut) (t : Slots)
+    (hb : build s.pool pd = .ok r) (hd : r.done = true) (hp : r.posted = some t)
+    (s' : State) (o : TickOut) (ht : tick s = .ok (s', o)) : t ∈ o.posted := by
+  unfold tick at ht
+  split at ht
+  · simp at ht
+  · rename_i keep posted tmo hl
+    obtain ⟨r', hr', _, _, h3⟩ := pendList_mem s.pool s.now s.timeout s.pend keep posted tmo hl pd hpd
+    rw [hb] at hr'
+    simp at hr'; subst hr'
+    simp only [Res.ok.injEq, Prod.mk.injEq] at ht
+    obtain ⟨_, rfl⟩ := ht
+    simp only [List.mem_map]
+    exact ⟨(t, r.pd), h3 t hd hp, rfl⟩
+
+/-- **the timeout only applies when the rebuild failed at that pass**: every full-block request a pass sends is
+for a queued block that could not be completed at this pass and whose pending time has reached the timeout. -/
+theorem request_only_after_failed_rebuild (s : State) (s' : State) (o : TickOut) (ht : tick s = .ok (s', o))
+    (q : BlockReq) (hq : q ∈ o.reqs) :
+    ∃ pd ∈ s.pend, ∃ r, build s.pool pd = .ok r ∧ r.done = false ∧ s.now - pd.recvT ≥ s.timeout ∧
+      q = ⟨pd.sender, pd.height⟩ := by
+  unfold tick at ht
+  split at ht
+  · simp at ht
+  · rename_i keep posted tmo hl
+    simp only [Res.ok.injEq, Prod.mk.injEq] at ht
+    obtain ⟨_, rfl⟩ := ht
+    simp only [List.mem_map, List.mem_filter] at hq
+    obtain ⟨x, ⟨hx, _⟩, rfl⟩ := hq
+    obtain ⟨pd, hpd, r, h1, h2, h3, rfl⟩ := pendList_tmo_origin s.pool s.now s.timeout s.pend keep posted tmo hl x hx
+    have hm := build_meta s.pool pd r h1
+    exact ⟨pd, hpd, r, h1, h2, h3, by simp [hm.1, hm.2.1]⟩
+
+/-- non-vacuity: the missing transaction arrives before the timeout, the next pass runs only after it — rebuilt, no request -/
+example :
+    let sh := fun (t : TxId) => s!"h{t}"
+    let s0 : State := { pool := pushAll sh {} [[1]], cur := 5 }
+    let s1 := (recvLtTotal s0 (honest sh "k" 9 0 [[1], [2]] 3)).1
+    ((tick { s1 with now := 5000, pool := pushAll sh s1.pool [[2]] }).map fun r => (r.2.posted, r.2.reqs, r.1.pend.length)) =
+      .ok ([[some 0, some 1, some 2]], [], 0) := by decide
+
 /-- the request goes out only for heights above the current one (`只请求大于本地高度的区块`) -/
 theorem no_request_for_old_height (s : State) (s' : State) (o : TickOut) (ht : tick s = .ok (s', o))
     (q : BlockReq) (hq : q ∈ o.reqs) : q.height > s.cur := by
